@@ -484,7 +484,15 @@ pub fn emit_case(rng: &mut Rng, bytes0: &[u8], out: &mut Vec<String>, native_fri
                 // remainder takes the sign of the dividend
                 n = if n >= 0 { n + r0 } else { n - r0 };
                 let un = n as u128;
-                (((un >> w) as u64) & mask, (un as u64) & mask)
+                // the extremes of the dividend itself (most negative / most positive double-width value and their neighbours):
+                // with a divisor of -1 or 1 the quotient is off the scale by a whole word, not by one
+                match rng.below(8) {
+                    0 => (1u64 << (w - 1), 0),
+                    1 => (1u64 << (w - 1), 1),
+                    2 => ((1u64 << (w - 1)) - 1, mask),
+                    3 => (mask, mask),
+                    _ => (((un >> w) as u64) & mask, (un as u64) & mask),
+                }
             };
             if w == 8 {
                 regs[0] = (regs[0] & !0xffff) | (hi << 8) | lo;
